@@ -1,11 +1,41 @@
 CFG = {
     "id": "C16",
-    "level_text": "TODO",
-    "level_note": "TODO",
+    "level_text": "Proof, full strength for the Go-level code: for EVERY byte list, Model.hash data = Some (Spec.xxh3_64 data) and "
+                  "Model.hash128 data = Some (Spec.xxh3_128 data), where Model is the Go code of hash.go / hash128.go / accum_scalar.go / util.go as "
+                  "written (length-class dispatch, unrolled loads at fixed offsets, the named constants of consts.go, the 129..240 loops with secret "
+                  "offsets i-125/i-117/i-109/i-101, accumScalar's block and stripe loops with (l-1)/1024, (l-1)/64, xinput-(64-l) and secret offset 121, "
+                  "scramble, the xacc merge) with every load bounds-checked (Some = no load outside the slice), and Spec is XXH3 (seed 0, default secret) "
+                  "in loop form over byte lists. All seven length classes (0, 1-3, 4-8, 9-16, 17-128, 129-240, >240) are proved for both digests; "
+                  "index arithmetic by lia, loops by induction. The constants are regenerated from consts.go on every run (tools/gen_c16) and "
+                  "Consts_ok (each xsecret_NNN = little-endian read of XXH3's kSecret at NNN, secret table = kSecret, primes) is re-proved by computation: "
+                  "a changed constant breaks it and every theorem. Tie on every run: real Hash/Hash128/HashString/Hash128String on every length of the tier, "
+                  "random and structured data, all three back ends forced through the verif hook, sub-slice offsets 0..63, exact and extra capacity, "
+                  "compared with Spec and Model evaluated inside Coq (vm_compute) and with the in-tree independent port internal/xxh3_raw; "
+                  "guard pages (PROT_NONE before/after, data read-only) for out-of-bounds loads and writes, all back ends.",
+    "level_note": "No length class is left unproved for the Go-level code. NOT proved: the assembly back ends avx2_amd64.s / sse2_amd64.s are MODELLED as equal to "
+                  "accumScalar and only tested to be so (every run: three-way differential on all lengths of the tier + guard pages); 'never modifies the bytes' has no "
+                  "theorem beyond the model being a pure function (tested: read-only mapping + before/after comparison); alignment/capacity independence is by "
+                  "construction in the model (a byte list has neither) and tested on the real code. The Spec is a hand transcription of XXH3 validated against "
+                  "internal/xxh3_raw and digests printed by the Go code, not against the C reference (not available offline). Slice lengths are exact integers "
+                  "(Go int < 2^63): uintptr wrap-around of index arithmetic is not modelled. consts.go naming quirk (no functional effect): xsecret32_000/004 and "
+                  "008/012 hold the other half of their 64-bit word (offset xor 4); stated as such in Consts_ok.",
     "harness": "c16",
     "gen": ["go run tools/gen_c16/main.go"],
-    "theorems": [],
-    "trusted": [],
-    "modelled": [],
-    "assumptions": [],
+    "theorems": [("C16.Props", [
+        "C16_Consts_ok", "C16_impl_eq_spec64", "C16_impl_eq_spec128", "C16_hash_total", "C16_read_outside",
+        "C16_hashString", "C16_xxh64Avalanche_below_2_33"])],
+    "trusted": [
+        "tools/gen_c16 (go/types evaluation of consts.go -> coq/theories/C16/Consts.v); its output is checked by C16_Consts_ok against the Spec's own kSecret",
+        "the hand-written Spec (XXH3 from the algorithm description), cross-checked on every run against internal/xxh3_raw inside the Coq case files (step 0 of every case)",
+        "verif hook sys/xxhash3/hooks_verif.go (back-end switch with restore, re-export of internal/xxh3_raw)",
+        "little-endian amd64: ReadUnaligned64/32/16 are little-endian byte compositions (Word.rd)",
+    ],
+    "modelled": [
+        "accumAVX2 / accumSSE2 (avx2_amd64.s, sse2_amd64.s): modelled as accumScalar; tested equal on every run, never proved",
+        "unsafe.Pointer arithmetic and hack.StringToBytes: a slice/string is its byte list, xinput+k is byte offset k",
+        "CPU feature detection (sys/cpu) selecting the back end: the harness forces each supported back end instead",
+    ],
+    "assumptions": ["slice lengths < 2^63 (index arithmetic exact)", "amd64 little-endian loads"],
+    "widen_runs": 1,
+    "widen_timeout": 1200,
 }
